@@ -117,6 +117,9 @@ def test_body(name, kind, p):
         return [("push", p)] + X + ["LT", ("ref", L + "_a"), "JUMPI", "STOP", ("label", L + "_a"), "STOP"]
     if kind == "revertall":
         return ["PUSH0", "PUSH0", "REVERT"]
+    if kind == "tsis":
+        # panics unless block.timestamp is exactly p (set by a relative vm.warp in setUp)
+        return ["TIMESTAMP", ("push", p), "EQ", "ISZERO"] + panic_if(L)
     if kind == "tstore":
         return [("push", 7), "TLOAD", ("ref", L + "_p"), "JUMPI", ("push", p), ("push", 7), "TSTORE", "STOP", ("label", L + "_p")] + PANIC
     if kind == "inv_lt":
@@ -168,6 +171,12 @@ def build_project(root, spec):
         if target is not None:
             items += [("pushn", 2, len(c_cr)), ("pushn", 2, tail_off), "PUSH0", "CODECOPY",
                       ("pushn", 2, len(c_cr)), "PUSH0", "PUSH0", "CREATE", "PUSH0", "SSTORE"]
+        if spec.get("setup_warp"):
+            # vm.warp(block.timestamp + delta): a block cheatcode on setUp's main-line path
+            items += [("pushn", 32, 0xE5D6BF02 << 224), "PUSH0", "MSTORE",
+                      "TIMESTAMP", ("push", spec["setup_warp"]), "ADD", ("push", 4), "MSTORE",
+                      "PUSH0", "PUSH0", ("push", 0x24), "PUSH0", "PUSH0",
+                      ("pushn", 20, 0x7109709ECFA91A80626FF3989D68F67F5B1DD12D), ("push", 100000), "CALL", "POP"]
         items += [("push", spec.get("slot1", 0)), ("push", 1), "SSTORE", "STOP"]
         for n, k, p in tests:
             items += [("label", "T_" + n), "POP"] + test_body(n, k, p)
